@@ -11,3 +11,7 @@ open MdVerif.RefText
 #print axioms C06_inline_links_output
 #print axioms C06_specLinks_spec
 #print axioms C06_getLink_dest
+#print axioms C06_links_fmt
+#print axioms C06_inline_links_fmt
+#print axioms C06_inline_links_output_fmt
+#print axioms C06_specLinksF_spec
